@@ -11,7 +11,9 @@ McInitWL == {"w"}
 Ws == <<W_TwoErc20, W_Disabled, W_Refused, W_Runs, W_Version2, W_DowngradeRejected, W_NonWhitelistedRejected,
         W_ZeroSupplyRejected, W_StakingDeployed, W_WhitelistChanged>>
 InitW == Init /\ \A i \in 1..Len(Ws) : TLCSet(i, FALSE)
-SpecW == InitW /\ [][Next]_vars
+(* the witnesses need neither Retype nor all modes of EvmCall *)
+NextW == Next /\ last'.k # "Retype" /\ (last'.k = "EvmCall" => last'.mode = "deliver")
+SpecW == InitW /\ [][NextW]_vars
 Mark == \A i \in 1..Len(Ws) : Ws[i] \/ TLCSet(i, TRUE)
 WitnessAll == \A i \in 1..10 : TLCGet(i) \/ Print(<<"witness not reached", i>>, FALSE)
 =============================================================================
